@@ -656,6 +656,12 @@ def rule_spread_once(check):
                     os_ = pv.origins(g, args[i])
                     ok = bool(kind_params) and all(r[0] == "param" and r[1] == g.def_path and r[2] in kind_params for r, pr in os_)
                     check.expect(ok, R, "%s/kind-flow/%s->%s" % (R, g.name, tgt.name), hir.loc(n), "%s passes its own IdentKind on to %s" % (g.name, tgt.name), "%s calls %s with kind %s instead of the kind of the operand it handles: a spread operand is captured or reported un-spread" % (g.name, tgt.name, sorted(origin_str(o) for o in os_)))
+                    # the own kind describes the operand the function was handed - not an element
+                    # (`elem.expr` of an ExprOrSpread) it has dug out of it: that one has a spread flag of its own
+                    for j, q in enumerate(cps):
+                        if j < len(args) and "swc_ecma_ast::Expr" in q["ty"] and "ExprOrSpread" not in q["ty"]:
+                            dug = [y for y in hir.walk(args[j]) if y.get("k") == "Field" and y.get("field") == "expr" and "ExprOrSpread" in (y.get("base_ty") or "")]
+                            check.expect(not dug, R, "%s/kind-of-element/%s->%s" % (R, g.name, tgt.name), hir.loc(n), "no element of an ExprOrSpread list is handled with the kind of its container", "%s hands the `.expr` of an ExprOrSpread element to %s together with its own kind: a spread element `...y` of the list is captured as `t = y` and reported to the hook un-spread" % (g.name, tgt.name))
     check.floor(R, "IdentKind hand-overs inside the operand handler", n_kind, 1)
     h = prog.fn("OperandHandler::replace_expressions_in_expr_or_spread")
     kinds = [n for n in hir.walk(h.body) if n.get("k") == "If"]
@@ -744,7 +750,7 @@ def rule_order(check):
             while x.get("k") == "MethodCall":
                 chain.append(x["method"])
                 x = hir.peel(x["recv"])
-            ok = chain in (["iter_mut"], ["iter"])
+            ok = [c_ for c_ in chain if c_ not in ("flatten", "by_ref")] in (["iter_mut"], ["iter"])  # flatten() over Option elements keeps the order
             check.expect(ok, R, "%s/forward/%s" % (R, f.name), hir.loc(n), "operands iterated forwards over %s" % (hir.place(x) or "?").split(".")[-1], "%s iterates its operands through %s" % (f.name, chain))
     # the assign transform keeps left/right
     f = prog.fn("AssignAddTransform::to_dd_assign_expr")
@@ -803,6 +809,8 @@ def rule_hoist_paren(check):
                             outs += [(r, "in-place replacement by %s" % h.name) for r in return_exprs(h.body)]
             if n.get("k") == "Struct" and (n["res"].get("path") or "").startswith("swc_ecma_ast::"):
                 outs += [(fl["e"], "field %s.%s" % (n["res"]["path"].split("::")[-1], fl["name"])) for fl in n["fields"] if "swc_ecma_ast::Expr" in (hir.peel(fl["e"]).get("ty") or "")]
+            if n.get("k") == "Assign" and "swc_ecma_ast::Expr" in (hir.peel(n["r"]).get("ty") or "") and "swc_ecma_ast::Expr" in (hir.peel(n["l"]).get("ty") or ""):
+                outs.append((n["r"], "assignment into the tree in %s" % g.name))
         for r, where in outs:
             n_ret += 1
             gg = g
